@@ -231,6 +231,7 @@ def setup_dir(d):
 def huge_repeat(text):
     """a '.repeat' whose count is a literal above 10^6 (or shifted): time proportional to the
     output the text asks for is not a hang in the sense of the property"""
+    product = 1
     for m in re.finditer(r"\.?repeat\s*([^\s{;]*)", text, re.I):
         c = m.group(1)
         if "<<" in c or "*" in c:
@@ -241,7 +242,8 @@ def huge_repeat(text):
                 v = int(mm.group(1), 10 if mm.group(2) or re.search("[89]", mm.group(1)) else 8)
             except ValueError:
                 continue
-            if v > 10 ** 6:
+            product *= max(v, 1)        # nested repeats multiply
+            if product > 10 ** 6:
                 return True
     return False
 
